@@ -12,6 +12,7 @@ import (
 	"os"
 	"sort"
 	"strconv"
+	"sync"
 	"time"
 
 	"github.com/gorilla/websocket"
@@ -31,6 +32,9 @@ type Obs struct {
 	IsErr     bool                `json:"is_err"`           // direct mode: err != nil
 	WsReply   []byte              `json:"ws_reply"`         // ws mode: what the websocket client itself read (may be missing)
 	WsSeen    bool                `json:"ws_seen"`          //
+	CtlSeen   bool                `json:"ctl_seen"`         // ctl mode: the reply came back over the control connection itself
+	CtlReply  []byte              `json:"ctl_reply"`        //
+	Fallback  bool                `json:"fallback"`         // ctl mode: no control connection was up (rule re-pointed); sent over the topic instead
 	Resent    bool                `json:"resent"`           // the hub dropped the command before it reached the handler; sent again
 	NoReply   bool                `json:"no_reply"`         // nothing within the deadline (twice)
 	Exit      bool                `json:"exit"`             // the host process ended while handling this item
@@ -41,6 +45,7 @@ type Obs struct {
 	Dests     map[string]rwc.Rule `json:"dests"`            // app.Websocket.Rules afterwards
 	Streams   map[string][]string `json:"streams"`          // app.Hub.Rules afterwards
 	StderrEnd string              `json:"stderr,omitempty"` // last lines of the child's stderr when it ended
+	APIUsed   string              `json:"api_used,omitempty"` // ctl mode, first line only: the control destination the child set up
 }
 
 const replyWait = 2 * time.Second
@@ -96,6 +101,15 @@ func childMain() {
 		out.WriteByte('\n')
 		out.Flush()
 	}
+	// ctl mode: the far end of the control connection - a websocket server of the harness that the host's own
+	// apiRule connects out to (rwc + reconws), as a relay would be.  Its address becomes Opts.API and is
+	// reported to the parent first.
+	var ctl *ctlRelay
+	if s.Mode == "ctl" {
+		ctl = startCtlRelay()
+		s.API = ctl.api
+		emit(Obs{APIUsed: s.API})
+	}
 	app := newApp(s.API)
 	port := lib.FreePorts(1)[0]
 	app.VerifStartHTTPServer(port)
@@ -131,14 +145,24 @@ func childMain() {
 			}
 		}()
 	}
+	if ctl != nil && !ctl.waitConn(10*time.Second) {
+		fmt.Fprintln(os.Stderr, "the host did not open its control connection within 10 s")
+		os.Exit(3)
+	}
 	barrier(app)
 	time.Sleep(5 * time.Millisecond)
 	hc := &http.Client{Timeout: replyWait, CheckRedirect: func(*http.Request, []*http.Request) error { return http.ErrUseLastResponse }}
 
+	fellBack := false
 	send := func(msg []byte) {
 		if s.Mode == "ws" {
 			_ = wsc.WriteMessage(websocket.TextMessage, msg)
+		} else if s.Mode == "ctl" && ctl.send(msg) {
+			// went out over the control connection
 		} else {
+			if s.Mode == "ctl" {
+				fellBack = true
+			}
 			app.Hub.Broadcast <- hub.Message{Sender: *inj, Data: msg, Type: websocket.TextMessage, Sent: time.Now()}
 		}
 	}
@@ -199,6 +223,10 @@ func childMain() {
 			for len(wsIn) > 0 {
 				<-wsIn
 			}
+			if ctl != nil {
+				ctl.drain()
+			}
+			fellBack = false
 			send(it.Msg)
 			r, ok := await(replyWait)
 			if !ok {
@@ -221,6 +249,14 @@ func childMain() {
 					case <-time.After(50 * time.Millisecond):
 					}
 				}
+				if s.Mode == "ctl" {
+					o.Fallback = fellBack
+					select {
+					case d := <-ctl.in:
+						o.CtlSeen, o.CtlReply = true, d
+					case <-time.After(50 * time.Millisecond):
+					}
+				}
 			} else {
 				o.NoReply = true
 			}
@@ -230,6 +266,86 @@ func childMain() {
 		emit(o)
 	}
 	os.Exit(0)
+}
+
+// ctlRelay is the far end of the control connection.
+type ctlRelay struct {
+	mu    sync.Mutex
+	conn  *websocket.Conn // the newest connection the host opened, nil when it is gone
+	conns chan struct{}   // a token per new connection
+	in    chan []byte     // what the host sent over the control connection
+	api   string          // its address, used as Opts.API
+}
+
+func startCtlRelay() *ctlRelay {
+	c := &ctlRelay{conns: make(chan struct{}, 64), in: make(chan []byte, 1024)}
+	up := websocket.Upgrader{CheckOrigin: func(*http.Request) bool { return true }}
+	l, err := net.Listen("tcp", "127.0.0.1:0")
+	if err != nil {
+		fmt.Fprintln(os.Stderr, "control relay:", err)
+		os.Exit(3)
+	}
+	c.api = "ws://" + l.Addr().String() + "/ctl/api"
+	go http.Serve(l, http.HandlerFunc(func(w http.ResponseWriter, r *http.Request) {
+		conn, err := up.Upgrade(w, r, nil)
+		if err != nil {
+			return
+		}
+		c.mu.Lock()
+		c.conn = conn
+		c.mu.Unlock()
+		c.conns <- struct{}{}
+		go func() {
+			for {
+				_, d, err := conn.ReadMessage()
+				if err != nil {
+					c.mu.Lock()
+					if c.conn == conn {
+						c.conn = nil
+					}
+					c.mu.Unlock()
+					return
+				}
+				c.in <- d
+			}
+		}()
+	}))
+	return c
+}
+
+func (c *ctlRelay) waitConn(d time.Duration) bool {
+	deadline := time.Now().Add(d)
+	for time.Now().Before(deadline) {
+		c.mu.Lock()
+		ok := c.conn != nil
+		c.mu.Unlock()
+		if ok {
+			return true
+		}
+		time.Sleep(2 * time.Millisecond)
+	}
+	return false
+}
+
+// send writes a command to the host over the control connection; false when there is none (the rule was
+// re-pointed by an earlier command of the session) - the caller then uses the topic directly.
+func (c *ctlRelay) send(msg []byte) bool {
+	if !c.waitConn(1500 * time.Millisecond) {
+		return false
+	}
+	c.mu.Lock()
+	conn := c.conn
+	c.mu.Unlock()
+	if conn == nil {
+		return false
+	}
+	return conn.WriteMessage(websocket.TextMessage, msg) == nil
+}
+
+func (c *ctlRelay) drain() {
+	for len(c.in) > 0 {
+		<-c.in
+	}
 }
 
 func sortedKeys(m map[string]rwc.Rule) []string {
